@@ -209,6 +209,8 @@ def index_variants(tier):
     out.append(rep(base, labels=()))
     out.append(rep(base, name='n'))
     out.append(rep(base, name='m'))
+    out.append(rep(base, name='shared', share='rename'))      # derived from the base object itself: shares its label array
+    out.append(rep(base, share='copy'))
     out.append(rep(base, cls='IndexGO'))
     out.append(rep(base, dtype='<U2'))
     out.append(rep(base, dtype='object'))
@@ -240,6 +242,7 @@ def ih_variants(tier):
     out.append(rep(base, labels=(('a', 1), ('a', 2), ('a', 3), ('b', 2))))
     out.append(rep(base, name='n'))
     out.append(rep(base, name=('x', 'y')))
+    out.append(rep(base, name='shared', share='rename'))
     out.append(rep(base, cls='IndexHierarchyGO'))
     out.append(rep(base, route='product'))
     out.append(rep(base, route='product', name='n'))
@@ -262,6 +265,8 @@ def series_variants(tier):
     out[-1]['index'] = I(('a', 'b'), '<U1')
     out.append(rep(base, name='m'))
     out.append(rep(base, name=None))
+    out.append(rep(base, name='shared', share='rename'))
+    out.append(rep(base, index=I(('a', 'b', 'c'), '<U1', name='shared-ix'), share='index-rename'))
     out.append(rep(base, cls='SeriesHE'))
     out.append(rep(base, dtype='object'))
     out.append(rep(base, dtype='object', values=(1.5, None, 3.0)))
@@ -312,6 +317,9 @@ def frame_variants(tier, cls='Frame'):
     out.append(setcell(base, 3, 0, 'x', '<U2'))
     out.append(rep(base, name='m'))
     out.append(rep(base, name=None))
+    out.append(rep(base, name='shared', share='rename'))
+    out.append(rep(base, index=I(('r0', 'r1'), '<U2', name='shared-ix'), share='index-rename'))
+    out.append(rep(base, columns=I(('a', 'b', 'c', 'd'), '<U1', name='shared-cx'), share='columns-rename'))
     out.append(rep(base, cls='FrameGO' if cls == 'Frame' else 'Frame'))
     out.append(rep(base, cls='FrameHE' if cls == 'Frame' else 'FrameGO'))
     out.append(rep(base, index=I(('r0', 'rX'), '<U2')))
@@ -407,7 +415,22 @@ def dkey(d):
 def run_case(case, ctx):
     kind, (name, dtype, klass, skipna), tier = case
     descs = variants(kind, tier)
-    objs = [build(d) for d in descs]
+    base_obj = build(descs[0])
+    objs = []
+    for di, d in enumerate(descs):
+        sh = d.get('share')
+        if di == 0:
+            objs.append(base_obj)
+        elif sh == 'rename':
+            objs.append(base_obj.rename(d['name']))
+        elif sh == 'copy':
+            objs.append(base_obj.copy())
+        elif sh == 'index-rename':
+            objs.append(base_obj.relabel(base_obj.index.rename(d['index']['name'])))
+        elif sh == 'columns-rename':
+            objs.append(base_obj.relabel(columns=base_obj.columns.rename(d['columns']['name'])))
+        else:
+            objs.append(build(d))
     n = len(objs)
     for d in descs:
         ctx.state((kind, dkey(d)))
